@@ -59,7 +59,7 @@ REQUIRED_THEOREMS = ["mux_single_source", "generator_idle_unless_stream_valid", 
                      "ctl_env", "joint_step", "restHolds_of_ctl", "ctl_closed_tx_never_during_rx",
                      "ctl_closed_transmitters_exclusive", "ctl_closed_tx_only_in_response_window",
                      # setup decoder FSM + deserializer composed in
-                     "deser_new", "dec_regs", "decHolds_of_dec", "dec_closed_tx_never_during_rx",
+                     "deser_new", "dec_regs", "dec_received_origin", "tok_facts", "decHolds_of_dec", "dec_closed_tx_never_during_rx",
                      "dec_closed_transmitters_exclusive", "dec_closed_tx_only_in_response_window"]
 RULE = ("cases = 'mux' (number of inputs x random valid/data patterns, one-hot and overlapping) and 'full' (descriptor set, "
         "endpoint set {bulk IN, bulk OUT, status}, extra handlers) x adaptive LegalHost script (control transfers, bulk IN "
@@ -91,8 +91,8 @@ ASSUMPTIONS = dev_ctl.ASSUMPTIONS + [
     "IDLE (the host does not ask for more data after the short packet); the reset sequencer does not transmit",
     "closed device with control endpoint AND setup decoder FSM + deserializer (dec_closed_tx_never_during_rx; "
     "Lemmas/C20DeviceDec.lean): as the previous item, with decHolds' instead of decHolds: the timer.start clause and the "
-    "setup.type clause are proved; still assumed per cycle: the decoder's ack only together with the receiver's "
-    "ready_for_response while the tokenizer shows SETUP, received only while the tokenizer shows SETUP, no received and no "
+    "setup.type clause and the 'received only while the tokenizer shows SETUP' clause are proved; still assumed per cycle: "
+    "the decoder's ack only together with the receiver's ready_for_response while the tokenizer shows SETUP, no received and no "
     "forwarded host ACK while the control slot is armed or sending, the start_position clause, reset sequencer silent; "
     "full speed (hs = false) in the evaluated example",
 ]
@@ -133,12 +133,13 @@ PARTIAL = ("Proved: the transaction-level theorems for every state and event of 
            "timer and CRC (Lemmas/C20DeviceDec.lean; received / ack / SetupPacket registers / timer.start are no longer "
            "inputs; a kernel-evaluated control read with NOTHING fed by hand shows timer.start in the cycle after the "
            "reception, received one cycle later, the decoder's ACK at the receiver's pulse, and the reference ACK + "
-           "DATA1/CRC16 bytes on the wire), and two clauses of decHolds are proved for every history (decHolds_of_dec: the "
+           "DATA1/CRC16 bytes on the wire), and three clauses of decHolds are proved for every history (decHolds_of_dec: the "
            "decoder's timer.start only in the cycle after a reception ended = E4; setup.type changes only together with the "
-           "received strobe), giving dec_closed_tx_never_during_rx / _transmitters_exclusive / _tx_only_in_response_window "
+           "received strobe; received is visible only while the tokenizer shows SETUP - the token detector is idle after the "
+           "cycle without rx_active and keeps its pid over that edge), giving dec_closed_tx_never_during_rx / _transmitters_exclusive / _tx_only_in_response_window "
            "under hostHolds + decHolds'. STILL ASSUMED (decHolds', see ASSUMPTIONS) and NOT proved: the decoder's ACK "
-           "coincides with the receiver's ready_for_response while the tokenizer still shows SETUP; received only while the "
-           "tokenizer shows SETUP; no received inside an open response window (these three need the joint invariant "
+           "coincides with the receiver's ready_for_response while the tokenizer still shows SETUP; "
+           "no received inside an open response window (these two need the joint invariant "
            "'decoder in DELAY <=> receiver in its inter-packet DELAY', the lock-step of the deserializer with the token "
            "detector, and the equality of the deserializer's and the receiver's CRC16 checks); no host ACK "
            "(handshakes_in.ack) inside an open response window (the handshake detector is not part of DevCyc); the "
